@@ -82,7 +82,7 @@ def ref_problems(lib, refs):
                         rep = (k, outcome)
                         break
                     prev_ok = st if outcome == "ok" else None
-                elif st["s"] != "touch":
+                elif st["s"] not in ("touch", "write"):
                     prev_ok = None
             first_bad = next(i for i, s_ in enumerate(a["steps"]) if s_.startswith("exc:"))
             if rep is not None and d["steps"][first_bad]["s"] in ("render", "cli_render", "to_code", "export") and \
@@ -117,7 +117,7 @@ def ref_problems(lib, refs):
                                     "files": diff_files(a["renders"][k], a["renders"][prev[1]])})
                     break
                 prev = (st, k)
-            elif st["s"] not in ("touch",):
+            elif st["s"] not in ("touch", "write"):
                 prev = None
     # prior renderings (and to_code / export calls) must not influence a later rendering
     byid = {d["id"]: d for d in lib}
@@ -951,7 +951,7 @@ def report(viols, hs_viol, lib_by_id, lib, refs, seed, scratch, first_replay=0):
             doc["twin"] = h["twin"]
             K.write_replay(PROP, seed, first_replay + len(replays) - 1, doc)
             out.append(f"violated clause: prior-render-influences-later-render: {h['desc']['id']} alone: its last rendering differs from "
-                       f"the same script with the earlier render/to_code/export steps left out, in {h['files'][:5]}")
+                       f"the same script with the earlier render/to_code/export (and read-only write/inspection) steps left out, in {h['files'][:5]}")
         elif h["clause"] == "sibling-network-influences-render":
             doc["twin"] = h["twin"]
             K.write_replay(PROP, seed, first_replay + len(replays) - 1, doc)
